@@ -8,6 +8,7 @@ import (
 	"os"
 	"path/filepath"
 	"reflect"
+	"runtime/metrics"
 	"sort"
 	"strings"
 	"time"
@@ -72,6 +73,20 @@ func c04Inputs(g *Gen, n int) [][]byte {
 	// decoders accept any of them, and the value they return must survive the follow-up operations
 	for _, tn := range append(append([]ap.ActivityVocabularyType{"IRI", "ItemCollection", "IRICollection", "Bogus"}, ap.Types...), ap.GenericTypes...) {
 		add([]byte(`{"type":"` + string(tn) + `","id":"http://example.com/y","name":"n","to":["http://example.com/a"],"items":["http://example.com/b"],"orderedItems":["http://example.com/c"],"object":{"type":"` + string(tn) + `"},"totalItems":2}`))
+	}
+	// well-formed documents whose numeric properties hold hostile numbers (negative, fractional, huge, beyond
+	// 64 bits), with the neighbouring lists present: a count read from the document must never size anything
+	for _, num := range []string{"-1", "-7", "1.5", "1000000", "10000000", "4611686018427387904", "9223372036854775807", "9223372036854775808", "18446744073709551615", "18446744073709551616", "1e30", "-1e30", "\"7\""} {
+		for _, tn := range []string{"Collection", "OrderedCollection", "CollectionPage", "OrderedCollectionPage"} {
+			doc := `{"type":"` + tn + `","id":"https://example.com/c","totalItems":` + num + `,"startIndex":` + num + `,"items":["https://example.com/1",{"id":"https://example.com/2","type":"Note"}],"orderedItems":["https://example.com/1",{"id":"https://example.com/2","type":"Note"}]}`
+			add([]byte(doc))
+			add([]byte(`{"type":"Note","id":"https://example.com/n","replies":` + doc + `,"likes":` + doc + `}`))
+			add([]byte(`{"type":"Person","id":"https://example.com/p","outbox":` + doc + `,"followers":` + doc + `}`))
+		}
+		add([]byte(`{"type":"Place","id":"https://example.com/pl","accuracy":` + num + `,"altitude":` + num + `,"latitude":` + num + `,"longitude":` + num + `,"radius":` + num + `,"units":"m"}`))
+		add([]byte(`{"type":"Link","href":"https://example.com/l","height":` + num + `,"width":` + num + `}`))
+		add([]byte(`{"type":"Mention","href":"https://example.com/l","height":` + num + `,"width":` + num + `}`))
+		add([]byte(`{"type":"Question","id":"https://example.com/q","closed":` + num + `,"oneOf":["https://example.com/1"],"anyOf":["https://example.com/2"]}`))
 	}
 	add(bytes.Repeat([]byte("["), 100000))
 	add(bytes.Repeat([]byte("{\"a\":"), 50000))
@@ -150,6 +165,24 @@ func c04Inputs(g *Gen, n int) [][]byte {
 		add(d)
 	}
 	return in
+}
+
+// allocation allowance per decoding call: a fixed part (encoding/gob compiles a decoder per type on first use, the
+// fastjson parser grows its value cache) plus a part proportional to the input
+const (
+	c04MemBase    = 4 << 20
+	c04MemPerByte = 4096
+)
+
+var (
+	c04MaxRatio   uint64
+	c04MaxRatioAt string
+)
+
+func heapAllocs() uint64 {
+	s := []metrics.Sample{{Name: "/gc/heap/allocs:bytes"}}
+	metrics.Read(s)
+	return s[0].Value.Uint64()
 }
 
 func minInt(a, b int) int {
@@ -251,7 +284,15 @@ func runC04(seed int64, n int, tier string, outDir string) (*Report, error) {
 		}
 		if len(in) <= 600 {
 			// the parser model's verdict against what the package-level entry point did with the document
-			_, err := ap.UnmarshalJSON(in)
+			err := func() (err error) {
+				defer func() {
+					if r := recover(); r != nil {
+						err = fmt.Errorf("panic: %v", r) // judged below, per entry point
+					}
+				}()
+				_, err = ap.UnmarshalJSON(in)
+				return err
+			}()
 			cw.Add("("+hx(in)+", "+cbool(err == nil)+")", fmt.Sprintf("input %d", ii))
 		}
 		for _, e := range entries {
@@ -260,6 +301,7 @@ func runC04(seed int64, n int, tier string, outDir string) (*Report, error) {
 			var v any
 			var err error
 			t0 := time.Now()
+			a0 := heapAllocs()
 			func() {
 				defer func() {
 					if r := recover(); r != nil {
@@ -271,6 +313,12 @@ func runC04(seed int64, n int, tier string, outDir string) (*Report, error) {
 				v, err = e.call(in)
 			}()
 			dt := time.Since(t0)
+			if da := heapAllocs() - a0; da > c04MemBase+c04MemPerByte*uint64(len(in)) {
+				rep.Violate(Violation{Op: e.name, Input: fmt.Sprintf("%q", trunc(string(in), 300)), Expected: "memory proportional to the input", Observed: fmt.Sprintf("%d bytes allocated for %d bytes of input", da, len(in)), Index: ii})
+			} else if r := da / uint64(len(in)+1); r > c04MaxRatio {
+				c04MaxRatio = r
+				c04MaxRatioAt = fmt.Sprintf("%s on %d bytes: %d allocated", e.name, len(in), da)
+			}
 			if dt > 2*time.Second || (dt > 300*time.Millisecond && len(in) < 100000) {
 				rep.Violate(Violation{Op: e.name, Input: fmt.Sprintf("%q", trunc(string(in), 120)), Expected: "time proportional to the input", Observed: fmt.Sprintf("%v for %d bytes", dt, len(in)), Index: ii})
 			}
@@ -289,6 +337,7 @@ func runC04(seed int64, n int, tier string, outDir string) (*Report, error) {
 			rep.Sample(fmt.Sprintf("%q", trunc(string(in), 80)))
 		}
 	}
+	rep.Notes = append(rep.Notes, "largest allocation per input byte seen in one call: "+c04MaxRatioAt)
 	if err := rep.AddCases(cw); err != nil {
 		return nil, err
 	}
